@@ -23,6 +23,8 @@ def run_property(prop, tier, seed, root=None, overrides=None, quiet=False):
             print('ANALYSIS-ERROR property=%s no rules built for this property yet (fail-closed)' % prop)
             return 2
         mod.run(ctx)
+        from .rules import l2
+        l2.rule_unbound(ctx)
         fixtures = None
         exp = getattr(mod, 'PINNED_EXPECT', None)
         if exp and root is None and overrides is None:
